@@ -1,5 +1,5 @@
 """C05 — cancellation or an executor panic never corrupts the engine (DESIGN §5.5)."""
-import json, os, sys, tempfile
+import json, os, re, sys, tempfile
 sys.path.insert(0, os.path.dirname(os.path.dirname(os.path.abspath(__file__))))
 import vlib
 
@@ -147,34 +147,134 @@ def _shard(args):
         rc, err = vlib.run_driver("drv_engine", os.path.join(out, "inv_ops.txt"), os.path.join(out, "inv_out.txt"), ["inv"])
         if rc != 0:
             return {"dir": out, "error": f"drv_engine inv exit {rc}: {err[-400:]}"}
-        inv = inv_results(out, "C05")
+        try: hf = json.load(open(os.path.join(out, "report.json")))["oracle_failures"]
+        except (OSError, ValueError, KeyError): hf = []
+        inv = inv_results(out, "C05", hf)
     return {"dir": out, "inv": inv}
 
 
-def inv_results(out, pid, replay_of=None):
-    """aligns the output of `drv_engine inv` (one line per `#D` line) with inv_ops.txt; returns counts and, for every
-    `inv FAIL…` line, an oracle failure whose case is the replayable text of the run (header `# <case file> <name> <variant> <fault>`)"""
+F70_SIG = "C05:F70:orphaned-pending-projection"
+
+
+def _reads_of(case_text):
+    """key -> keys its executor can read (from the `node` lines of a case text)"""
+    reads = {}
+    for l in case_text.split("\n"):
+        t = l.split()
+        if len(t) >= 5 and t[0] == "node":
+            rs, e, i = set(), t[4:], 0
+            while i < len(e):
+                if e[i] in ("r", "X") and i + 1 < len(e): rs.add(int(e[i + 1])); i += 2
+                elif e[i] == "S" and i + 1 < len(e): n = int(e[i + 1]); rs.update(int(x) for x in e[i + 2:i + 2 + n]); i += 2 + n
+                elif e[i] in ("c", "w"): i += 2
+                else: i += 1
+            reads[int(t[1])] = rs
+    return reads
+
+
+def _depends_on(reads, key, k):
+    """`key` transitively reads `k` (key != k)"""
+    seen, todo = set(), list(reads.get(key, ()))
+    while todo:
+        x = todo.pop()
+        if x == k: return True
+        if x not in seen: seen.add(x); todo += list(reads.get(x, ()))
+    return False
+
+
+def inv_results(out, pid, harness_failures=()):
+    """Aligns the output of `drv_engine inv` (one line per `#D` line) with inv_ops.txt (one block per run, header
+    `# <case file> <name> <variant> <target> <fault…>`), and ATTRIBUTES failures to the known finding F70 (orphaned pending
+    projection after a cut).  A failure is attributed only if ALL hold:
+      * the run had an injected CUT (a dropped request), not a panic;
+      * the Lean checker answers `inv FAIL pjCause k` at the settle point right after the fault (the dump with index
+        <target>: one dump per op before the target) — projection k has a pending flag although no recorded callee of k has one;
+        K = the keys of all pjCause answers of the run from there on;
+      * the failing item is (a) a pending-flag clause (`pjCause` / `pjBroken`) about a key of K at or after the settle point, or
+        (b) a wrong value (`C05:value`, `C05:state-invariant:value`, `inv FAIL cur|trace|solid|clean`) at or after the settle
+        point of a key that transitively reads a key of K in the program (the keys of K themselves excluded).
+    Everything else keeps its own signature (a VIOLATION).  Returns counts, the failures of the checker, and the harness
+    failures with the attributed ones re-labelled."""
     lines = _read(os.path.join(out, "inv_ops.txt"))
     res = _read(os.path.join(out, "inv_out.txt"))
-    counts, fails, j, header, last_op = {}, [], 0, "", ""
     n_d = sum(1 for l in lines if l.startswith("#D"))
     if n_d != len(res):
-        return {"counts": {"misaligned": 1}, "fails": [{"sig": f"{pid}:state-invariant:inv:misaligned", "desc": f"{n_d} #D lines, {len(res)} answers", "case": ""}]}
+        return {"counts": {"misaligned": 1}, "fails": [{"sig": f"{pid}:state-invariant:inv:misaligned", "desc": f"{n_d} #D lines, {len(res)} answers", "case": ""}], "harness": list(harness_failures)}
+    runs, cur, j, last_op, counts = [], None, 0, "", {}
     for l in lines:
-        if l.startswith("# "): header = l[2:]
+        if l.startswith("# "):
+            h = l[2:].split(" ", 3)
+            cur = {"header": l[2:], "ci": h[0], "name": h[1] if len(h) > 1 else "", "variant": h[2] if len(h) > 2 else "", "tag": h[3] if len(h) > 3 else "", "dumps": []}
+            runs.append(cur)
         elif l.startswith("#D"):
             r = res[j]; j += 1
             key = " ".join(r.split()[:2])
             counts[key] = counts.get(key, 0) + 1
-            if r.startswith("inv FAIL") or r.startswith("inv bad-digest"):
-                h = header.split(" ", 3)
-                try: text = open(os.path.join(out, "cases", h[0] + ".txt")).read()
-                except (OSError, IndexError): text = ""
-                case = (f"#fault {h[2]} {h[3]}\n" if len(h) == 4 else "") + text
-                if sum(1 for f in fails if f["sig"].endswith(":".join(r.split()[1:3]))) < 2:
-                    fails.append({"sig": f"{pid}:state-invariant:inv:" + ":".join(r.split()[1:3]), "desc": f"[{header}] after `{last_op[:80]}` the Lean checker of the proved engine invariant answers `{r}` on the dumped state {l[3:400]}", "case": case})
+            if cur is not None: cur["dumps"].append((last_op, r, l))
         elif not l.startswith(("case", "node")): last_op = l
-    return {"counts": counts, "fails": fails}
+    def parse(r):
+        t = r.split()
+        if len(t) >= 4 and t[0] == "inv" and t[1] in ("FAIL", "FAIL-nonshape"):
+            try: return t[2], int(t[3])
+            except ValueError: return t[2], None
+        return None, None
+    fails, by_run = [], {}
+    for run in runs:
+        tg = run["tag"].split()
+        try: target = int(tg[0])
+        except (ValueError, IndexError): target = None
+        is_cut = len(tg) > 1 and tg[1] in ("cut", "cutat")
+        orphans = set()
+        if is_cut and target is not None and len(run["dumps"]) > target and parse(run["dumps"][target][1])[0] == "pjCause":
+            orphans = {parse(d[1])[1] for d in run["dumps"][target:] if parse(d[1])[0] == "pjCause"} - {None}
+        try: text = open(os.path.join(out, "cases", run["ci"] + ".txt")).read()
+        except OSError: text = ""
+        reads = _reads_of(text)
+        run.update(target=target, orphans=orphans, reads=reads)
+        by_run[(run["name"], run["variant"], run["tag"])] = run
+        case = (f"#fault {run['variant']} {run['tag']}\n" if run["tag"] else "") + text
+        for i, (op, r, dl) in enumerate(run["dumps"]):
+            if not (r.startswith("inv FAIL") or r.startswith("inv bad-digest")): continue
+            clause, key = parse(r)
+            f70 = bool(orphans) and i >= target and key is not None and (
+                (clause in ("pjCause", "pjBroken") and key in orphans) or
+                (clause in ("cur", "trace", "solid", "clean") and key not in orphans and any(_depends_on(reads, key, k) for k in orphans)))
+            sig = F70_SIG if f70 else f"{pid}:state-invariant:inv:" + ":".join(r.split()[1:3])
+            if sum(1 for f in fails if f["sig"] == sig) < 2:
+                fails.append({"sig": sig, "desc": f"[{run['header']}] after `{op[:80]}` the Lean checker of the proved engine invariant answers `{r}` on the dumped state {dl[3:400]}", "case": case})
+            counts["attributed_to_F70" if f70 else "inv_failures_not_attributed"] = counts.get("attributed_to_F70" if f70 else "inv_failures_not_attributed", 0) + 1
+    # the harness's own value failures of the same runs
+    harness, n_attr = [], 0
+    for f in harness_failures:
+        f = dict(f)
+        m = re.match(r"\[(\S+) (\S+)\] (.*)", f.get("desc", ""), flags=re.S)
+        first = f.get("case", "").split("\n", 1)[0]
+        key = op = None
+        if m and first.startswith("#fault ") and f["sig"] in ("C05:value", "C05:state-invariant:value"):
+            tag = first[len("#fault "):].split(" ", 1)[1] if " " in first[len("#fault "):] else ""
+            run = by_run.get((m.group(1), m.group(2), tag))
+            if f["sig"] == "C05:value":
+                mm = re.match(r"op (\d+) key (\d+) got", m.group(3))
+                if mm: op, key = int(mm.group(1)), int(mm.group(2))
+            else:
+                mm = re.match(r"op (\d+) .*?: node (\d+) is verified", m.group(3), flags=re.S)
+                if mm: op, key = int(mm.group(1)), int(mm.group(2))
+            if run and run["orphans"] and key is not None and op is not None and op >= run["target"] and key not in run["orphans"] \
+                    and any(_depends_on(run["reads"], key, k) for k in run["orphans"]):
+                f["desc"] += f" [attributed to F70: the Lean checker reports the orphaned pending projection(s) {sorted(run['orphans'])} from the settle point of this cut on, and key {key} reads them transitively]"
+                f["sig"] = F70_SIG
+                n_attr += 1
+        harness.append(f)
+    if n_attr: counts["harness_value_failures_attributed_to_F70"] = n_attr
+    # keep the lists short: at most 2 attributed, at most 3 of every other signature
+    def cap(fs):
+        out_, seen = [], {}
+        for f in fs:
+            lim = 2 if f["sig"] == F70_SIG else 3
+            if seen.get(f["sig"], 0) < lim: out_.append(f)
+            seen[f["sig"]] = seen.get(f["sig"], 0) + 1
+        return out_
+    return {"counts": counts, "fails": cap(fails), "harness": cap(harness)}
 
 
 def _read(p):
@@ -213,10 +313,13 @@ def run(ctx, boost=1):
         res.distinct_nontrivial += rep["distinct_nontrivial"]
         for k, v in rep["distribution"].items(): dist[k] = dist.get(k, 0) + v
         if len(res.samples) < 6: res.samples += rep["samples"][:1]
-        res.oracle_failures += rep["oracle_failures"]
         if o.get("inv"):
+            # the harness's failures with those of the known finding F70 re-labelled (see inv_results), then the checker's
+            res.oracle_failures += o["inv"]["harness"]
             for k, v in o["inv"]["counts"].items(): dist["state_dumps_checked_by_drv_engine_inv:" + k] = dist.get("state_dumps_checked_by_drv_engine_inv:" + k, 0) + v
             res.oracle_failures += o["inv"]["fails"]
+        else:
+            res.oracle_failures += rep["oracle_failures"][:40]
             try: os.remove(os.path.join(d, "inv_out.txt")); os.remove(os.path.join(d, "inv_ops.txt")) if not o["inv"]["fails"] else None
             except OSError: pass
         ops, imp, mod = _read(os.path.join(d, "ops.txt")), _read(os.path.join(d, "impl.txt")), _read(os.path.join(d, "model.txt"))
